@@ -100,3 +100,28 @@ Example C15_ex_selection :
   let a1 := Build_tx 1 0 100 10 1 in let a2 := Build_tx 1 1 900 10 2 in let b1 := Build_tx 2 5 500 10 3 in
   valid_selection 25 (fun _ _ => Good) [a2; b1; a1] [b1; a1] [b1; a1] = true.
 Proof. vm_compute. reflexivity. Qed.
+
+(* ---------------------------------------------------------------- generated block accepted (composition with C03's model) *)
+From LE Require Import Exec.VerifyBlock Exec.Process Forge.Seal.
+(* "partial": every rule of Block.Validate, verifyBlock and block execution (Exec.VerifyBlock / Exec.Process) passes for
+   the block assembled by forge(), PROVIDED generation and acceptance see the same environment — the listed hypotheses.
+   Missing for the unconditional statement: the contradiction verdict from C15_never_self_contradicting through the vote
+   model (ve_contradicting), validity of the pooled aggregate commit (C06), signature correctness, determinism of the
+   ABI between generation and execution.  The real node is run on these paths by the correspondence (check_accept). *)
+Theorem C15_generated_block_accepted_partial : forall s tip g pe v x,
+  tip_header s = Some tip ->
+  b_len (h_id tip) = 32 -> b_len (ge_generator g) = 20 -> b_len (ge_sig g) = 64 ->
+  forallb tx_static (ge_txs g) = true -> strictly_sorted (map as_module (ge_assets g)) = true ->
+  pe_txroot pe = ge_txroot g -> pe_assetroot pe = ge_assetroot g ->
+  payload_size (forge_block tip g) <= ve_max_payload v ->
+  slot_of v (h_timestamp tip) < slot_of v (ge_now g) -> slot_of v (ge_now g) <= slot_of v (ve_now v) ->
+  ve_gen_lookup_ok v = true -> ve_generators v <> [] ->
+  nth_error (ve_generators v) (N.to_nat (slot_of v (ge_now g) mod N.of_nat (length (ve_generators v)))) = Some (ge_generator g) ->
+  ge_mhp g = ve_node_mhp v ->
+  ve_contradicting v = false -> ve_agg_ok v = true -> ve_sig_ok v = true ->
+  xe_abi_init_ok x = true -> xe_abi_verify_assets_ok x = true -> xe_bft_ok x = true -> xe_abi_before_ok x = true ->
+  (forall p, In p (xe_tx x) -> p = (true, true)) -> xe_abi_after_ok x = true ->
+  (xe_params_changed x = true -> xe_set_params_ok x = true) ->
+  xe_post_vhash x = ge_vhash g -> xe_nevents x <= max_events -> xe_eventroot x = ge_eventroot g -> xe_abi_commit_ok x = true ->
+  receive s (forge_block tip g) pe v x = (Accepted, commit_block s (forge_block tip g) x).
+Proof. exact generated_block_accepted. Qed.
